@@ -5,6 +5,7 @@ use super::PropResult;
 use crate::core::*;
 use crate::model::calendar as cal;
 use crate::model::instant::*;
+use super::diff::*;
 use astrolabe::errors::AstrolabeError;
 use astrolabe::{DateTime, DateUtilities, Offset, OffsetUtilities, Time, TimeUtilities};
 use serde_json::{json, Value};
@@ -64,44 +65,59 @@ fn judge_dt(rec: &mut Rec, i: i128, o: i32) {
         rec.nontrivial(hash_i128s(&[i, o as i128]));
     }
     let local = i + o as i128 * NS;
-    let mf = fields(local);
-    let r = trap(|| {
-        let base = mk(i);
-        let x = base.set_offset(Offset::Fixed(o));
-        let g = (x.year(), x.month(), x.day(), x.day_of_year(), x.weekday(), x.hour(), x.minute(), x.second(), x.milli(), x.micro(), x.nano());
-        let same = (x == base, x.cmp(&base), base.cmp(&x), x.nanos_since(&base), x.seconds_since(&base), x.days_since(&base), x.duration_between(&base).as_nanos());
-        // as_offset on the offset-free value: keeps the displayed fields, moves the instant by −o
-        let y = base.as_offset(Offset::Fixed(o));
-        let yg = (y.year(), y.month(), y.day(), y.hour(), y.minute(), y.second(), y.nano());
-        let bg = (base.year(), base.month(), base.day(), base.hour(), base.minute(), base.second(), base.nano());
-        (read(&x), x.timestamp(), base.timestamp(), x.get_offset(), g, same, x.format(PATTERN), read(&y), y.get_offset(), yg, bg)
-    });
     rec.api("DateTime::set_offset");
     rec.api("DateTime::as_offset");
     rec.api("DateTime::format");
     let wit = |obs: Value| json!({"instant_utc": show(i), "offset": o, "model_local": show(local), "class": cls, "observed": obs});
+    // the offset-free value of the instant, and — independently built — the offset-free value of the
+    // *shifted* instant, whose getters/format are what the property says the offset value must show
+    let Some((base, bobs)) = sane_value(i, 0) else {
+        rec.bin(SKIP_START);
+        return;
+    };
+    let shifted = sane_value(local, 0).filter(|(_, so)| so.local.is_some());
+    if shifted.is_none() {
+        rec.bin("skipped/shifted-instant-not-constructible-or-not-trustworthy");
+    }
+    type G = (i32, u32, u32, u32, u8, u32, u32, u32, u32, u32, u32);
+    let getters = |x: &DateTime| -> G { (x.year(), x.month(), x.day(), x.day_of_year(), x.weekday(), x.hour(), x.minute(), x.second(), x.milli(), x.micro(), x.nano()) };
+    let cmp_sane = trap(|| base == base && base.cmp(&base) == Ordering::Equal && base.nanos_since(&base) == 0 && base.seconds_since(&base) == 0 && base.days_since(&base) == 0).unwrap_or(false);
+    let r = trap(|| {
+        let x = base.set_offset(Offset::Fixed(o));
+        let same = (x == base, x.cmp(&base), base.cmp(&x), x.nanos_since(&base), x.seconds_since(&base), x.days_since(&base), x.duration_between(&base).as_nanos());
+        let sh = shifted.as_ref().map(|(e, _)| (getters(&x), getters(e), x.format(PATTERN), format!("{} {}", e.format("yyyy MM dd HH mm ss nnnnn"), fmt_offset_x5(o))));
+        // as_offset on the offset-free value: keeps the displayed fields, moves the instant by −o
+        let y = base.as_offset(Offset::Fixed(o));
+        let yg = (y.year(), y.month(), y.day(), y.hour(), y.minute(), y.second(), y.nano());
+        let bg = (base.year(), base.month(), base.day(), base.hour(), base.minute(), base.second(), base.nano());
+        ((read(&x), read_via_timestamp(&x.set_offset(Offset::Fixed(0))), x.timestamp(), x.as_ymdhms()), x.get_offset(), same, sh, y, y.get_offset(), yg, bg)
+    });
     match r {
         Err(p) => rec.violation(format!("C10|datetime|set_offset/getters/as_offset|panic|{},{}", p.class, p.site()), || wit(p.to_json())),
-        Ok((ix, tsx, tsb, goff, g, same, fmt, iy, yoff, yg, bg)) => {
-            if ix != i || tsx != tsb {
-                rec.violation(format!("C10|datetime|set_offset|instant-changed|{}", cls), || wit(json!({"instant_after": show(ix), "timestamp": [tsx, tsb]})));
+        Ok((inst, goff, same, sh, y, yoff, yg, bg)) => {
+            let before = (bobs.ns_since, bobs.via_ts, base.timestamp(), bobs.utc);
+            if inst != before {
+                rec.violation(format!("C10|datetime|set_offset|instant-changed|{}", cls), || wit(json!({"(nanos_since, timestamp+nano, timestamp, as_ymdhms) before": format!("{:?}", before), "after": format!("{:?}", inst)})));
             }
             if goff != Offset::Fixed(o) {
                 rec.violation("C10|datetime|get_offset|not-what-was-set".to_string(), || wit(json!({"get_offset": format!("{:?}", goff)})));
             }
-            if same != (true, Ordering::Equal, Ordering::Equal, 0, 0, 0, 0) {
+            if cmp_sane && same != (true, Ordering::Equal, Ordering::Equal, 0, 0, 0, 0) {
                 rec.violation(format!("C10|datetime|set_offset|ordering-or-difference-changed|{}", cls), || wit(json!({"eq/cmp/cmp/nanos_since/seconds_since/days_since/duration": format!("{:?}", same)})));
             }
-            let mg = (mf.year as i32, mf.month, mf.dom, cal::day_of_year(mf.day), cal::weekday_sun0(mf.day) as u8, mf.hour, mf.minute, mf.second, mf.subsec / 1_000_000, mf.subsec / 1_000, mf.subsec);
-            if g != mg {
-                rec.violation(format!("C10|datetime|getters|not-the-shifted-instant's-fields|{}", cls), || wit(json!({"getters(y,m,d,doy,wd,h,m,s,ms,us,ns)": format!("{:?}", g), "model": format!("{:?}", mg)})));
+            if let Some((g, eg, fmt, want)) = sh {
+                if g != eg {
+                    rec.violation(format!("C10|datetime|getters|not-the-shifted-instant's-fields|{}", cls), || wit(json!({"getters(y,m,d,doy,wd,h,m,s,ms,us,ns)": format!("{:?}", g), "getters of the offset-free value of instant+offset": format!("{:?}", eg)})));
+                }
+                if fmt != want {
+                    rec.violation(format!("C10|datetime|format|not-the-shifted-instant's-fields|{}", cls), || wit(json!({"pattern": PATTERN, "expected (format of the offset-free value of instant+offset, then the offset)": want, "observed": fmt})));
+                }
             }
-            let want = fmt_local(local, o);
-            if fmt != want {
-                rec.violation(format!("C10|datetime|format|not-the-shifted-instant's-fields|{}", cls), || wit(json!({"pattern": PATTERN, "expected": want, "observed": fmt})));
-            }
-            if iy != i - o as i128 * NS {
-                rec.violation(format!("C10|datetime|as_offset|instant-not-moved-by-minus-offset|{}", cls), || wit(json!({"expected": show(i - o as i128 * NS), "observed": show(iy)})));
+            match diff_with_expected(&y, i - o as i128 * NS, o) {
+                Ok(Diff::Skip) => rec.bin(SKIP_EXPECTED),
+                Ok(Diff::Same) => {}
+                Ok(Diff::Differs(g, e)) => rec.violation(format!("C10|datetime|as_offset|instant-not-moved-by-minus-offset|{}", cls), || wit(json!({"result_reads": g.to_json(), "independently_built_expected_reads": e.to_json()}))),
+                Err(p) => rec.violation(format!("C10|datetime|as_offset|result-unreadable|{},{}", p.class, p.site()), || wit(p.to_json())),
             }
             if yoff != Offset::Fixed(o) || yg != bg {
                 rec.violation(format!("C10|datetime|as_offset|displayed-fields-changed|{}", cls), || wit(json!({"before": format!("{:?}", bg), "after": format!("{:?}", yg), "offset": format!("{:?}", yoff)})));
@@ -123,41 +139,53 @@ fn judge_time(rec: &mut Rec, n: u64, o: i32) {
         rec.bin("time/local-reading-exactly-midnight");
     }
     rec.nontrivial(hash_i128s(&[n as i128, o as i128, 1]));
-    let r = trap(|| {
-        let base = Time::from_nanos(n).unwrap();
-        let x = base.set_offset(Offset::Fixed(o));
-        let g = (x.hour(), x.minute(), x.second(), x.milli(), x.micro(), x.nano());
-        let y = base.as_offset(Offset::Fixed(o));
-        let yg = (y.hour(), y.minute(), y.second(), y.nano());
-        (x.as_nanos(), x.get_offset(), g, x == base, x.cmp(&base), x.nanos_since(&base), x.format("HH mm ss nnnnn xxxxx"), y.as_nanos(), y.get_offset(), yg)
-    });
     rec.api("Time::set_offset");
     rec.api("Time::as_offset");
     let wit = |obs: Value| json!({"time_as_nanos": n, "offset": o, "model_local_nanos": local, "class": cls, "observed": obs});
+    let Some((base, _)) = sane_time(n, 0) else {
+        rec.bin(SKIP_START);
+        return;
+    };
+    let Some((shifted, _)) = sane_time(local, 0) else {
+        rec.bin(SKIP_EXPECTED);
+        return;
+    };
+    let cmp_sane = trap(|| base == base && base.cmp(&base) == Ordering::Equal && base.nanos_since(&base) == 0).unwrap_or(false);
+    let tg = |x: &Time| (x.hour(), x.minute(), x.second(), x.milli(), x.micro(), x.nano());
+    let r = trap(|| {
+        let x = base.set_offset(Offset::Fixed(o));
+        let y = base.as_offset(Offset::Fixed(o));
+        let yg = (y.hour(), y.minute(), y.second(), y.nano());
+        let bg = (base.hour(), base.minute(), base.second(), base.nano());
+        (x.as_nanos(), x.get_offset(), tg(&x), tg(&shifted), x == base, x.cmp(&base), x.nanos_since(&base), x.format("HH mm ss nnnnn xxxxx"), format!("{} {}", shifted.format("HH mm ss nnnnn"), fmt_offset_x5(o)), y, y.get_offset(), yg, bg)
+    });
     match r {
         Err(p) => rec.violation(format!("C10|time|set_offset/getters/as_offset|panic|{},{}", p.class, p.site()), || wit(p.to_json())),
-        Ok((xn, xo, g, eq, c, ns, fmt, yn, yo, yg)) => {
-            let s = (local / 1_000_000_000) as u32;
-            let sub = (local % 1_000_000_000) as u32;
-            let mg = (s / 3600, s / 60 % 60, s % 60, sub / 1_000_000, sub / 1_000, sub);
-            if xn != n || !eq || c != Ordering::Equal || ns != 0 {
+        Ok((xn, xo, g, mg, eq, c, ns, fmt, want, y, yo, yg, bg)) => {
+            if xn != n || (cmp_sane && (!eq || c != Ordering::Equal || ns != 0)) {
                 rec.violation(format!("C10|time|set_offset|stored-time-changed|{}", cls), || wit(json!({"as_nanos": xn, "eq": eq, "nanos_since": ns})));
             }
             if xo != Offset::Fixed(o) {
                 rec.violation("C10|time|get_offset|not-what-was-set".to_string(), || wit(json!({"get_offset": format!("{:?}", xo)})));
             }
             if g != mg {
-                rec.violation(format!("C10|time|getters|not-the-shifted-time|{}", cls), || wit(json!({"getters": format!("{:?}", g), "model": format!("{:?}", mg)})));
+                rec.violation(format!("C10|time|getters|not-the-shifted-time|{}", cls), || wit(json!({"getters": format!("{:?}", g), "getters of the offset-free shifted time": format!("{:?}", mg)})));
             }
-            let want = format!("{:02} {:02} {:02} {:09} {}", mg.0, mg.1, mg.2, sub, fmt_offset_x5(o));
             if fmt != want {
                 rec.violation(format!("C10|time|format|not-the-shifted-time|{}", cls), || wit(json!({"expected": want, "observed": fmt})));
             }
             let en = (n as i128 - o as i128 * NS).rem_euclid(DN as i128) as u64;
-            let bs = (n / 1_000_000_000) as u32;
-            let bg = (bs / 3600, bs / 60 % 60, bs % 60, (n % 1_000_000_000) as u32);
-            if yn != en || yo != Offset::Fixed(o) || yg != bg {
-                rec.violation(format!("C10|time|as_offset|wrong|{}", cls), || wit(json!({"expected_as_nanos": en, "as_nanos": yn, "fields_before": format!("{:?}", bg), "fields_after": format!("{:?}", yg)})));
+            let moved = match diff_time(&y, en, o) {
+                Ok(TDiff::Skip) => {
+                    rec.bin(SKIP_EXPECTED);
+                    None
+                }
+                Ok(TDiff::Same) => None,
+                Ok(TDiff::Differs(g, e)) => Some(format!("result reads {:?}, independently built expected reads {:?}", g, e)),
+                Err(p) => Some(format!("unreadable: {}", p.msg)),
+            };
+            if moved.is_some() || yo != Offset::Fixed(o) || yg != bg {
+                rec.violation(format!("C10|time|as_offset|wrong|{}", cls), || wit(json!({"expected_as_nanos": en, "problem": moved, "fields_before": format!("{:?}", bg), "fields_after": format!("{:?}", yg)})));
             }
         }
     }
